@@ -1,7 +1,8 @@
 From Coq Require Import ZArith List Bool Lia ZifyBool.
-From HV Require Import Prelude.Py Prelude.State Bridge.BridgeConsts.
+From HV Require Import Prelude.Py Prelude.State Bridge.BridgeConsts Bridge.B_table_entry_size Bridge.B_HeaderTable__shrink.
 From HV Require Gen.GData Gen.GInt Gen.GTable Gen.GHuff Model.Data Model.Int Model.Table Model.HuffEnc Model.HuffDec.
 Open Scope Z_scope.
 Lemma b_HeaderTable_set_maxsize : forall t m, GTable.HeaderTable_set_maxsize t m = Table.HeaderTable_set_maxsize t m.
-Proof. bridge. Qed.
+(* it calls _shrink and table_entry_size, whose regenerated texts need not be convertible with the model's *)
+Proof. bridge_with ltac:(rewrite ?b_HeaderTable__shrink, ?b_table_entry_size). Qed.
 Print Assumptions b_HeaderTable_set_maxsize.
